@@ -1,6 +1,6 @@
 SPECIFICATION Spec
 CONSTANTS
-  SecpPeers = {"a", "b"}
+  SecpPeers = {"a", "b", "sx", "sy"}
   OtherPeers = {"e"}
   BatchLen = 1
 INVARIANTS Emit Attributed Independent
